@@ -134,6 +134,7 @@ pub fn c01() -> PropDef<Case> {
         flush_oldest: 6,
         flush_all: 7,
         compact: 12,
+        key_window: 3,
         ..Weights::default()
     };
     model_prop(
@@ -166,6 +167,7 @@ pub fn c06_profile() -> CaseProfile {
         flush_all: 8,
         compact: 14,
         reopen: 4,
+        key_window: 5,
         ..Weights::default()
     };
     CaseProfile {
@@ -173,6 +175,54 @@ pub fn c06_profile() -> CaseProfile {
         pool: (4, 24),
         steps: (30, 110),
         step: StepProfile { slots: 2, w, ops: OpWeights { set: 10, delete: 5, soft_delete: 2, replace: 2 }, explicit_ts: false, txn_keys: (1, 6), open_bounds: false, ro_frac: 4, wo_frac: 0 },
+    }
+}
+
+pub fn c06() -> PropDef<Case> {
+    let profile = c06_profile();
+    let opts = ExecOpts { judge_rejections: false, final_reopen: true, record_answers: true, ..ExecOpts::default() };
+    PropDef {
+        id: "C06",
+        engine: "model",
+        level: "exploration",
+        rule: "case = one logical history (sets, hard/soft deletes, replaces, re-insertions, multi-key transactions, reads through <=2 open transactions) executed (P1) under the generated physical plan - rotate / flush / compaction rounds / clean reopen placed anywhere, 1..4 levels, tiny memtables/blocks/index partitions, per-level compression, bloom on/off, cache 0/4K/1M, vlog thresholds, key-window phases that create several tables on deeper levels - and (P0) as an all-in-memory twin with default options and every physical step removed; both are compared with the reference model after every step and with each other answer by answer, then compaction + reopen + probe commit + reopen. Non-trivial: a key was deleted or overwritten, at least one compaction changed the table set afterwards and the state was read again. Distinct = hash of the serialised case.".to_string(),
+        assumptions: COMMON_ASSUMPTIONS.iter().map(|s| s.to_string()).collect(),
+        strategy: Arc::new(move || case_strategy(&profile)),
+        run: Arc::new(move |case: &Case, dir: &Path| {
+            surrealkv::verif::set_manual_background(true);
+            surrealkv::verif::set_height_seed(Some(crate::util::hash64(&case.steps) ^ 0x5eed));
+            let p1 = block_on_case(case, &dir.join("p1"), &opts);
+            if p1.failure.is_some() {
+                return CaseResult { stats: p1.stats, failure: p1.failure, nontrivial: false };
+            }
+            let o0 = ExecOpts { p0: true, final_reopen: false, ..opts.clone() };
+            let p0 = block_on_case(case, &dir.join("p0"), &o0);
+            if let Some(mut f) = p0.failure {
+                // the all-in-memory twin disagrees with the model: either a store defect that needs no physical
+                // step at all, or a defect of the model - flagged distinctly
+                f.class = format!("p0-twin/{}", f.class);
+                return CaseResult { stats: p1.stats, failure: Some(f), nontrivial: false };
+            }
+            if p0.answers != p1.answers {
+                let i = p0.answers.iter().zip(p1.answers.iter()).position(|(a, b)| a != b).unwrap_or(p0.answers.len().min(p1.answers.len()));
+                let f = crate::exec::Failure {
+                    class: "twin-divergence".into(),
+                    step: p1.answers.get(i).map(|a| a.0).unwrap_or(usize::MAX),
+                    msg: format!("answer #{i} differs between the physical plan and the in-memory twin: {:?} vs {:?}", p1.answers.get(i), p0.answers.get(i)),
+                    aux: serde_json::json!({}),
+                };
+                return CaseResult { stats: p1.stats, failure: Some(f), nontrivial: false };
+            }
+            let s = &p1.stats;
+            let nt = (s.has("overwrites") || s.has("delete_commits")) && s.has("compactions");
+            let mut stats = p1.stats.clone();
+            if nt && s.has("bottom_compactions") && s.has("delete_commits") {
+                stats.inc("delete_then_bottom_compaction");
+            }
+            CaseResult { stats, failure: None, nontrivial: nt }
+        }),
+        render: Arc::new(|c: &Case| c.render(80)),
+        minimize: Some(Arc::new(minimize_case)),
     }
 }
 
@@ -224,6 +274,7 @@ pub fn c09() -> PropDef<Case> {
         flush_oldest: 5,
         flush_all: 5,
         compact: 4,
+        key_window: 3,
         ..Weights::default()
     };
     model_prop(
@@ -243,7 +294,7 @@ pub fn c09() -> PropDef<Case> {
 }
 
 pub fn c07(arena_full: bool) -> PropDef<Case> {
-    let w = Weights { begin: 1, write: 1, get: 2, commit: 1, txn: 40, rotate: 4, flush_oldest: 5, flush_all: 10, compact: 16, reopen: 8, flush_wal: 1, ..Weights::default() };
+    let w = Weights { begin: 1, write: 1, get: 2, commit: 1, txn: 40, rotate: 4, flush_oldest: 5, flush_all: 10, compact: 16, reopen: 8, flush_wal: 1, key_window: 6, ..Weights::default() };
     model_prop(
         "C07",
         "exploration",
@@ -326,6 +377,18 @@ pub fn c14(vlog: Option<bool>, cache: Option<u32>) -> PropDef<Case> {
         },
         ExecOpts { judge_rejections: false, final_reopen: true, ..ExecOpts::default() },
         |s, _| s.has("restores_discarding") && s.has("flushes"),
+    )
+}
+
+pub fn c10(vindex: bool, ties: bool) -> PropDef<Case> {
+    model_prop(
+        "C10",
+        "exploration",
+        "case = timestamped history (explicit non-decreasing timestamps per key, ties in a sub-class, sets / soft deletes / hard deletes / replaces, one write per key per transaction) x generated physical plan (rotate, flush, compaction, reopen) on a versioning-enabled store, run with the B+tree version index off and on; get_at probes at, just below and just above every version timestamp and history traversals (tombstones on/off, timestamp ranges, limits, forward and backward) during the run and in a final sweep, compared with a version-list model with barrier semantics. Non-trivial: a key with >=3 versions was traversed and a get_at for a non-latest version was decided after >=1 compaction. Distinct = hash of the serialised case.",
+        COMMON_ASSUMPTIONS,
+        c10_profile(Some(vindex), false),
+        ExecOpts { judge_rejections: false, versioned_sweep: true, single_write_per_key: true, final_reopen: true, no_ties: !ties, ..ExecOpts::default() },
+        |s, _| s.has("history_ge3") && s.has("get_at_non_latest") && s.has("compactions"),
     )
 }
 
